@@ -40,17 +40,18 @@ Record state : Type := mkState
     rotated : list addr;                 (* rotation history: sources *)
     bal : acct -> string -> Z;
     del_fix : bool;                   (* does DeleteIdentityRecordById also delete the address+key index entry? (probed on the real code) *)
-    msg_guard : bool }.                 (* does MsgSetNetworkProperties apply the EnsureUniqueKeys guards? (probed on the real code) *)
+    msg_guard : bool;
+    rrtok : list addr }.                (* addresses with a validator recovery token (x/recovery) *)                 (* does MsgSetNetworkProperties apply the EnsureUniqueKeys guards? (probed on the real code) *)
 
-Definition set_recs (s : state) x := mkState x (idx s) (reqs s) (last_rid s) (last_qid s) (ukeys s) (min_tip s) (councilors s) (perm_c s) (perm_v s) (perm_n s) (accts s) (secrets s) (rotated s) (bal s) (del_fix s) (msg_guard s).
-Definition set_idx (s : state) x := mkState (recs s) x (reqs s) (last_rid s) (last_qid s) (ukeys s) (min_tip s) (councilors s) (perm_c s) (perm_v s) (perm_n s) (accts s) (secrets s) (rotated s) (bal s) (del_fix s) (msg_guard s).
-Definition set_reqs (s : state) x := mkState (recs s) (idx s) x (last_rid s) (last_qid s) (ukeys s) (min_tip s) (councilors s) (perm_c s) (perm_v s) (perm_n s) (accts s) (secrets s) (rotated s) (bal s) (del_fix s) (msg_guard s).
-Definition set_last_rid (s : state) x := mkState (recs s) (idx s) (reqs s) x (last_qid s) (ukeys s) (min_tip s) (councilors s) (perm_c s) (perm_v s) (perm_n s) (accts s) (secrets s) (rotated s) (bal s) (del_fix s) (msg_guard s).
-Definition set_last_qid (s : state) x := mkState (recs s) (idx s) (reqs s) (last_rid s) x (ukeys s) (min_tip s) (councilors s) (perm_c s) (perm_v s) (perm_n s) (accts s) (secrets s) (rotated s) (bal s) (del_fix s) (msg_guard s).
-Definition set_ukeys (s : state) x := mkState (recs s) (idx s) (reqs s) (last_rid s) (last_qid s) x (min_tip s) (councilors s) (perm_c s) (perm_v s) (perm_n s) (accts s) (secrets s) (rotated s) (bal s) (del_fix s) (msg_guard s).
-Definition set_bal (s : state) ac x := mkState (recs s) (idx s) (reqs s) (last_rid s) (last_qid s) (ukeys s) (min_tip s) (councilors s) (perm_c s) (perm_v s) (perm_n s) ac (secrets s) (rotated s) x (del_fix s) (msg_guard s).
+Definition set_recs (s : state) x := mkState x (idx s) (reqs s) (last_rid s) (last_qid s) (ukeys s) (min_tip s) (councilors s) (perm_c s) (perm_v s) (perm_n s) (accts s) (secrets s) (rotated s) (bal s) (del_fix s) (msg_guard s) (rrtok s).
+Definition set_idx (s : state) x := mkState (recs s) x (reqs s) (last_rid s) (last_qid s) (ukeys s) (min_tip s) (councilors s) (perm_c s) (perm_v s) (perm_n s) (accts s) (secrets s) (rotated s) (bal s) (del_fix s) (msg_guard s) (rrtok s).
+Definition set_reqs (s : state) x := mkState (recs s) (idx s) x (last_rid s) (last_qid s) (ukeys s) (min_tip s) (councilors s) (perm_c s) (perm_v s) (perm_n s) (accts s) (secrets s) (rotated s) (bal s) (del_fix s) (msg_guard s) (rrtok s).
+Definition set_last_rid (s : state) x := mkState (recs s) (idx s) (reqs s) x (last_qid s) (ukeys s) (min_tip s) (councilors s) (perm_c s) (perm_v s) (perm_n s) (accts s) (secrets s) (rotated s) (bal s) (del_fix s) (msg_guard s) (rrtok s).
+Definition set_last_qid (s : state) x := mkState (recs s) (idx s) (reqs s) (last_rid s) x (ukeys s) (min_tip s) (councilors s) (perm_c s) (perm_v s) (perm_n s) (accts s) (secrets s) (rotated s) (bal s) (del_fix s) (msg_guard s) (rrtok s).
+Definition set_ukeys (s : state) x := mkState (recs s) (idx s) (reqs s) (last_rid s) (last_qid s) x (min_tip s) (councilors s) (perm_c s) (perm_v s) (perm_n s) (accts s) (secrets s) (rotated s) (bal s) (del_fix s) (msg_guard s) (rrtok s).
+Definition set_bal (s : state) ac x := mkState (recs s) (idx s) (reqs s) (last_rid s) (last_qid s) (ukeys s) (min_tip s) (councilors s) (perm_c s) (perm_v s) (perm_n s) ac (secrets s) (rotated s) x (del_fix s) (msg_guard s) (rrtok s).
 (* everything that is neither record, index, request, counter, unique-key list nor balance *)
-Definition set_aux (s : state) co pc pv pn ac ro := mkState (recs s) (idx s) (reqs s) (last_rid s) (last_qid s) (ukeys s) (min_tip s) co pc pv pn ac (secrets s) ro (bal s) (del_fix s) (msg_guard s).
+Definition set_aux (s : state) co pc pv pn ac ro rr := mkState (recs s) (idx s) (reqs s) (last_rid s) (last_qid s) (ukeys s) (min_tip s) co pc pv pn ac (secrets s) ro (bal s) (del_fix s) (msg_guard s) rr.
 
 Fixpoint mem (a : Z) (l : list Z) : bool := match l with [] => false | b :: r => (a =? b) || mem a r end.
 Definition add_mem (a : Z) (l : list Z) : list Z := if mem a l then l else l ++ [a].
@@ -258,7 +259,7 @@ Definition nonempty (l : list info) : list info := filter (fun i => negb (String
 (* MsgClaimCouncilor: moniker, username, description, social, contact, avatar *)
 Definition claim_councilor (now : Z) (a : addr) (vals : list string) (s : state) : outcome state :=
   if negb (mem a (perm_c s)) then Err "PermClaimCouncilor" else
-  let s1 := set_aux s (add_mem a (councilors s)) (perm_c s) (perm_v s) (perm_n s) (accts s) (rotated s) in
+  let s1 := set_aux s (add_mem a (councilors s)) (perm_c s) (perm_v s) (perm_n s) (accts s) (rotated s) (rrtok s) in
   register_keeper now a (nonempty (combine ["moniker"; "username"; "description"; "social"; "contact"; "avatar"]%string vals)) s1.
 
 Fixpoint ltrim (s : string) : string :=
@@ -274,8 +275,9 @@ Definition claim_validator (now : Z) (a : addr) (moniker : string) (s : state) :
 Definition ukeys_valid (new : string) : bool :=
   negb (String.eqb new "") && String.eqb new (to_lower new) && unique_keys_block_ok new.
 Definition kv_of (s : state) : list (string * string) := map (fun r => (r_key r, r_val r)) (recs s).
-(* keeper.SetNetworkProperty(UniqueIdentityKeys): what a passed proposal executes *)
+(* ApplySetNetworkPropertyProposalHandler.Apply (x/gov/proposal_handler.go) + keeper.SetNetworkProperty(UniqueIdentityKeys) *)
 Definition set_keys_prop (new : string) (s : state) : outcome state :=
+  if String.eqb new (ukeys s) then Err "network property already set as proposed value" else   (* proposal handler *)
   if negb (String.eqb (ensure_old_unique_keys_not_removed (ukeys s) new) "") then Err "old unique key removed" else
   if negb (String.eqb (ensure_unique_keys (kv_of s) (ukeys s) new) "") then Err "already existing key is not unique" else
   if ukeys_valid new then Ok (set_ukeys s new) else Err "invalid network properties".
@@ -301,19 +303,29 @@ Definition move_rec (b : addr) (s : state) (e : (addr * string) * Z) : outcome s
   end.
 Definition all_recs_exist (s : state) (l : list ((addr * string) * Z)) : bool :=
   forallb (fun e => match get_rec s (snd e) with Some _ => true | None => false end) l.
+(* the identity / actor part shared by RotateRecoveryAddress and RotateValidatorByHalfRRTokenHolder *)
+Definition rotate_core (a b : addr) (s1 : state) : outcome state :=
+  let mine := idx_of s1 a in
+  if negb (all_recs_exist s1 mine) then Panic "invalid recordId exists" else
+  do s2 <- foldM (move_rec b) mine s1;
+  let s3 := set_reqs s2 (map (fun q => mkReq (q_id q) (ren a b (q_addr q)) (ren a b (q_ver q)) (q_rids q) (q_denom q) (q_amt q) (q_date q)) (reqs s2)) in
+  Ok (set_aux s3 (map (ren a b) (councilors s3)) (map (ren a b) (perm_c s3)) (map (ren a b) (perm_v s3)) (map (ren a b) (perm_n s3))
+              (accts s3) (a :: rotated s3) (map (ren a b) (rrtok s3))).
 Definition rotate_msg (a b : addr) (proof_ok : bool) (s : state) : outcome state :=
+  if mem a (rrtok s) then Err "address has validator recovery token" else
   if negb (mem a (secrets s)) then Err "recovery record not found" else
   if negb proof_ok then Err "invalid proof" else
   if mem b (rotated s) then Err "target address already has rotation history" else
   if negb (mem a (accts s)) then Err "account does not exist" else
   if mem b (accts s) then Err "rotated account already exists" else
   do s1 <- move_bal a b s;
-  let mine := idx_of s1 a in
-  if negb (all_recs_exist s1 mine) then Panic "invalid recordId exists" else
-  do s2 <- foldM (move_rec b) mine s1;
-  let s3 := set_reqs s2 (map (fun q => mkReq (q_id q) (ren a b (q_addr q)) (ren a b (q_ver q)) (q_rids q) (q_denom q) (q_amt q) (q_date q)) (reqs s2)) in
-  Ok (set_aux s3 (map (ren a b) (councilors s3)) (map (ren a b) (perm_c s3)) (map (ren a b) (perm_v s3)) (map (ren a b) (perm_n s3))
-              (accts s3) (a :: rotated s3)).
+  rotate_core a b s1.
+(* MsgRotateValidatorByHalfRRTokenHolder: no fee, no account checks, balances stay *)
+Definition rotate_rr (a b : addr) (holder_ok : bool) (s : state) : outcome state :=
+  if negb (mem a (rrtok s)) then Err "recovery token does not exist" else
+  if negb holder_ok then Err "not enough RR token amount for rotation" else
+  if mem b (rotated s) then Err "target address already has rotation history" else
+  rotate_core a b s.
 
 (* ---------------------------------------------------------------- operations and histories *)
 Inductive op : Type :=
@@ -326,7 +338,9 @@ Inductive op : Type :=
 | OClaimValidator (now : Z) (a : addr) (moniker : string)
 | OSetKeysProp (new : string)
 | OSetKeysMsg (p : addr) (new : string)
-| ORotate (a b : addr) (proof_ok : bool).
+| ORotate (a b : addr) (proof_ok : bool)
+| ORotateRR (a b : addr) (holder_ok : bool)
+| OGenesis.                   (* gov ExportGenesis, wipe of the identity stores, InitGenesis *)
 
 Definition step (s : state) (o : op) : outcome state :=
   match o with
@@ -340,6 +354,8 @@ Definition step (s : state) (o : op) : outcome state :=
   | OSetKeysProp new => set_keys_prop new s
   | OSetKeysMsg p new => set_keys_msg p new s
   | ORotate a b ok => rotate_msg a b ok s
+  | ORotateRR a b ok => rotate_rr a b ok s
+  | OGenesis => Ok s        (* the identity registry is exported and re-imported unchanged *)
   end.
 
 (* a failed transaction leaves no trace *)
@@ -353,10 +369,11 @@ Definition signer (o : op) : addr :=
   | OHandle v _ _ => v
   | OSetKeysProp _ => -1
   | OSetKeysMsg p _ => p
-  | ORotate a _ _ => a
+  | ORotate a _ _ | ORotateRR a _ _ => a
+  | OGenesis => -1
   end.
 
 (* starting states: empty registry, given configuration and balances.  Granting the
    claim-councilor permission (AddWhitelistPermission) already creates a "waiting" councilor. *)
-Definition init_state (uk : string) (mt : Z) (pc pv pn ac se : list addr) (b : acct -> string -> Z) (fx mg : bool) : state :=
-  mkState [] [] [] 0 0 uk mt pc pc pv pn ac se [] b fx mg.
+Definition init_state (uk : string) (mt : Z) (pc pv pn ac se : list addr) (b : acct -> string -> Z) (fx mg : bool) (rr : list addr) : state :=
+  mkState [] [] [] 0 0 uk mt pc pc pv pn ac se [] b fx mg rr.
